@@ -55,6 +55,7 @@ class MemTransport:
         self.answers = collections.deque()
         self.readys = collections.deque()
         self.ready_log = []
+        self.events = []              # ('ready', answer) / ('write', call index) in program order of the session thread
         self.writes = []
         self.wire = bytearray()
         self.on_write = None          # callable(transport): scripted server reacting to client bytes
@@ -79,6 +80,7 @@ class MemTransport:
         self.prims.point('send_ready')
         r = self.readys.popleft() if self.readys else True
         self.ready_log.append(r)
+        self.events.append(('ready', r))
         if self.on_ready:
             self.on_ready(self, r)
         return r
@@ -87,6 +89,7 @@ class MemTransport:
         self.prims.point('write')
         data = bytes(data)
         a = self.answers.popleft() if self.answers else ACCEPT_ALL
+        self.events.append(('write', len(self.writes)))
         self.writes.append((data, a))
         if a[0] == 'raise':
             raise a[1]
